@@ -436,6 +436,9 @@ fn shared_prefix_end(hevc: bool, fc: &FirstCfg) -> Option<(usize, usize)> {
     Some((k, cur))
 }
 
+/// How many scenario frames had a mono_chrome AV1 header replaced (see `video_frame`).
+pub static EXCLUDED_AV1_MONO: std::sync::atomic::AtomicU64 = std::sync::atomic::AtomicU64::new(0);
+
 pub fn ccfg(g: &CfgGene) -> CCfg {
     // some configurations without audio say so explicitly (AudioCodec::None through the builder, see CCfg::audio == 8)
     let audio = if g.audio % 8 == 0 && g.channels % 3 == 0 { 8 } else { g.audio % 8 };
@@ -750,7 +753,16 @@ pub fn video_frame(cfg: &CfgGene, g: &VGene, idx: usize, first: bool, fc: &mut F
                 s2.cdef = !s2.cdef;
                 s2
             } else {
-                cfg.av1.clone().unwrap_or_else(Av1Seq::simple)
+                let mut s0 = cfg.av1.clone().unwrap_or_else(Av1Seq::simple);
+                if s0.color.mono {
+                    // open finding (C07, KNOWN_FINDINGS: av1C ... mono_chrome): the library reads two bits that mono_chrome
+                    // headers do not code; depending on how the header ends it stores a wrong chroma_sample_position or
+                    // refuses the keyframe altogether, and then nothing a scenario expects holds.  Excluded here by
+                    // construction (counted); C07's own generators keep producing mono_chrome headers.
+                    s0.color.mono = false;
+                    EXCLUDED_AV1_MONO.fetch_add(1, std::sync::atomic::Ordering::Relaxed);
+                }
+                s0
             };
             let fr = Av1Frame { obus, seq: Some(seq) };
             let (mut bytes, seq_obu) = fr.build(tag);
